@@ -2,6 +2,8 @@
 bounding-box shortcut returns what the sweep would return for operands that cannot interact: the trivial-result table)."""
 from rules import oprules, sweeprules, fillrules
 
+from rules import looprules
+
 LEVEL = 'other'
 EXPLANATION = __doc__
 
@@ -14,3 +16,4 @@ def run(ctx, rep):
     oprules.check_pipeline(ctx, rep)
     oprules.check_trivial(ctx, rep)
     sweeprules.check_break(ctx, rep)
+    looprules.check_loops(ctx, rep)
